@@ -192,7 +192,26 @@ func runC14(c *Ctx) {
 		}
 		r0 := s.IR.Lo
 		var steps int64
+		// in 1/4 of the repeating programs the host (a debugger, a loader) overwrites the
+		// instruction with NOPs between two repetitions: from then on every Step is a NOP
+		patchAt := -1
+		if kind <= 2 && n >= 3 && pi%4 == 3 {
+			patchAt = 1 + r.Intn(n-2)
+		}
 		for i := 0; i < n; i++ {
+			if i == patchAt {
+				mem.Place(s.PC, 0x00, 0x00)
+				pcB, rB := cpu.PC, cpu.IR.Lo
+				cpu.Step()
+				steps++
+				if cpu.PC != pcB+1 || cpu.IR.Lo != rB&0x80|(rB+1)&0x7f {
+					c.R.Violation(fmt.Sprintf("C14/multi/kind%d/patched to NOP", kind), map[string]interface{}{
+						"what":    "the host replaced a repeating block instruction by NOPs between two repetitions; the next Step must fetch and execute the NOP (R+1, PC+1)",
+						"program": HexBytes(prog), "pre": DumpState(&s, false), "post": DumpState(&cpu.States, cpu.HALT), "patched_before_step": i + 1,
+						"R_before": h8(rB), "PC_before": h16(pcB)})
+				}
+				break
+			}
 			cpu.Step()
 			steps++
 			want := r0&0x80 | (r0+uint8(i+1)*expPer)&0x7f
@@ -228,6 +247,55 @@ func runC14(c *Ctx) {
 			c.R.Sample(map[string]interface{}{"program": HexBytes(prog), "steps": n, "R_start": h8(r0), "R_end": h8(cpu.IR.Lo)})
 		}
 	})
+
+	// chains of DD/FD prefixes in front of a one-byte opcode: however an implementation
+	// splits them into Steps (this tree: two prefixes are swallowed as one unsupported
+	// Step), every byte of the chain is fetched as an opcode byte exactly once, so by
+	// the time PC has reached the end of the chain R has advanced by the chain's length
+	var chainN int64
+	{
+		r := mon.NewRng(uint64(c.Seed) ^ 0xC14F)
+		mem := &mon.Mem{}
+		mem.Fill(r.U64())
+		finals := []uint8{0x23, 0x2b, 0x09, 0x19, 0x29, 0x39, 0x00, 0x3c, 0x04} // no operands, no jumps
+		for np := 1; np <= 6; np++ {
+			for rep := 0; rep < c.Pick(200, 4000); rep++ {
+				seq := make([]uint8, 0, np+1)
+				for i := 0; i < np; i++ {
+					seq = append(seq, []uint8{0xdd, 0xfd}[r.Intn(2)])
+				}
+				seq = append(seq, finals[r.Intn(len(finals))])
+				pre := RandStates(r)
+				if pre.PC > 0xfff0 {
+					pre.PC = 0x4000
+				}
+				mem.Reset()
+				mem.Place(pre.PC, seq...)
+				mem.Place(pre.PC+uint16(len(seq)), 0x00, 0x00)
+				cpu := z80.CPU{States: pre, Memory: mem}
+				end := pre.PC + uint16(len(seq))
+				steps := 0
+				for cpu.PC != end && steps < len(seq)+1 && cpu.PC-pre.PC < uint16(len(seq)) {
+					cpu.Step()
+					steps++
+				}
+				chainN++
+				if cpu.PC != end {
+					continue // consumed differently (overshoot): no verdict here
+				}
+				d := (cpu.IR.Lo - pre.IR.Lo) & 0x7f
+				if int(d) != len(seq)&0x7f || cpu.IR.Lo&0x80 != pre.IR.Lo&0x80 || cpu.IR.Hi != pre.IR.Hi {
+					c.R.Violation("C14/prefix-chain", map[string]interface{}{
+						"what":  fmt.Sprintf("a chain of %d DD/FD prefixes and a one-byte opcode was executed in %d Steps and R advanced by %d, want %d (one count per opcode byte fetched, none twice)", np, steps, d, len(seq)),
+						"bytes": HexBytes(seq), "pre": DumpState(&pre, false), "post": DumpState(&cpu.States, cpu.HALT)})
+					break
+				}
+				distinct.Add(mon.Hash(0xc4a1, uint64(np), uint64(rep)))
+			}
+		}
+	}
+	c.R.Set("prefix_chains", chainN)
+	evals += chainN
 
 	// fetches from the unpopulated part of a short z80.DumbMemory (reads 0 = NOP)
 	// handed to the CPU directly count like any other opcode fetch
@@ -375,6 +443,6 @@ func runC14(c *Ctx) {
 	c.R.Set("encodings_covered", int64(len(encs)))
 	c.R.Set("exhaustive", false)
 	c.R.Set("exhaustive_over", "(encoding, starting R) pairs: 930 x 256, each with 5 I values x 2 IFF2 values; other registers sampled")
-	c.R.Set("rule", "all 930 implemented encodings x all 256 starting R x I in {00,7F,80,FF,random} x IFF2 in {0,1}: delta of R's low 7 bits = opcode fetches of the decode table (1 unprefixed, 2 prefixed, 2 or 3 DDCB/FDCB), bit 7 and I unchanged except by LD R,A / LD I,A, LD A,R / LD A,I value and flags by direct formula, plus equality with the reference model's R; then all 856 openings outside the implemented set x 86 starting R (I and bit 7 of R unchanged, counter moved by 1..4); then interrupt acceptance (NMI, mode 0 RST/CALL, mode 1, mode 2; all 256 starting R x 8 states each): bit 7 of R and I unchanged, counter moved by 0..2; then NOP fetches on short z80.DumbMemory slices (length 0..FFFFh) handed over directly, PC at/behind the end; then multi-Step programs (LDIR/LDDR/CPIR/OTIR/INIR with 1..300 repetitions - half of the I/O ones with no device attached -, 1..300 Steps on HALT) from random R. Every case changes R, so every case is non-trivial; distinct = distinct (encoding, R, I, IFF2) tuples + distinct (kind, length, R) programs")
+	c.R.Set("rule", "all 930 implemented encodings x all 256 starting R x I in {00,7F,80,FF,random} x IFF2 in {0,1}: delta of R's low 7 bits = opcode fetches of the decode table (1 unprefixed, 2 prefixed, 2 or 3 DDCB/FDCB), bit 7 and I unchanged except by LD R,A / LD I,A, LD A,R / LD A,I value and flags by direct formula, plus equality with the reference model's R; then all 856 openings outside the implemented set x 86 starting R (I and bit 7 of R unchanged, counter moved by 1..4); then interrupt acceptance (NMI, mode 0 RST/CALL, mode 1, mode 2; all 256 starting R x 8 states each): bit 7 of R and I unchanged, counter moved by 0..2; then chains of 1..6 DD/FD prefixes before a one-byte opcode (R advanced by the chain's length once PC is behind it, however the chain is split into Steps); then NOP fetches on short z80.DumbMemory slices (length 0..FFFFh) handed over directly, PC at/behind the end; then multi-Step programs (LDIR/LDDR/CPIR/OTIR/INIR with 1..300 repetitions - half of the I/O ones with no device attached -, 1..300 Steps on HALT) from random R. Every case changes R, so every case is non-trivial; distinct = distinct (encoding, R, I, IFF2) tuples + distinct (kind, length, R) programs")
 	c.R.Assume("across interrupt acceptance only bit 7 of R, I and a bound of 0..2 fetches are checked (chips and emulators differ on the exact count)")
 }
